@@ -31,6 +31,10 @@ type params struct {
 	// while the block notifier's current block is already AHEAD of the delivered events (the real polling notifier
 	// updates its current block before it publishes). Explored with a deviation bound (skips + queries).
 	Status bool
+	// Hub: the notifier publishes through the REAL default hub (aggsender.GenericSubscriberImpl) and the harness is a
+	// subscriber that is busy (does not read its channel) during a window of blocks, then reads everything pending.
+	// Every announced epoch must still arrive exactly once (the order of delivery is the hub's business and not judged).
+	Hub bool
 }
 
 type fakeBlocks struct {
@@ -92,6 +96,14 @@ func units(tier string) []mc.Unit {
 					continue
 				}
 				us = append(us, mc.Unit{Name: fmt.Sprintf("status:len=%d,start=%d,pct=%d", l, s, pct), Params: params{Len: l, Start: s, Pct: pct, Status: true}})
+			}
+		}
+	}
+	// the real hub with a subscriber that is busy for a while
+	for l := uint64(1); l <= 4; l++ {
+		for _, s := range []uint64{0, 5} {
+			for _, pct := range []uint{0, 25, 50, 75, 99} {
+				us = append(us, mc.Unit{Name: fmt.Sprintf("hub:len=%d,start=%d,pct=%d", l, s, pct), Params: params{Len: l, Start: s, Pct: pct, Hub: true}})
 			}
 		}
 	}
@@ -178,9 +190,16 @@ func runInBubble(c *mc.Ctx, u mc.Unit) {
 	p := u.Params.(params)
 	fb := &fakeBlocks{ch: make(chan types.EventNewBlock), cur: p.Start}
 	rec := &recorder{fb: fb}
+	var sub types.GenericSubscriber[types.EpochEvent] = rec
+	var hubCh <-chan types.EpochEvent
+	if p.Hub {
+		hub := aggsender.NewGenericSubscriberImpl[types.EpochEvent]()
+		hubCh = hub.Subscribe("verif")
+		sub = hub
+	}
 	n, err := aggsender.NewEpochNotifierPerBlock(fb, kit.Logger(),
 		aggsender.ConfigEpochNotifierPerBlock{StartingEpochBlock: p.Start, NumBlockPerEpoch: uint(p.Len),
-			EpochNotificationPercentage: p.Pct}, rec)
+			EpochNotificationPercentage: p.Pct}, sub)
 	if err != nil {
 		c.Failf("constructor", "NewEpochNotifierPerBlock: %v", err)
 		return
@@ -210,7 +229,41 @@ func runInBubble(c *mc.Ctx, u mc.Unit) {
 			candidates = append(candidates, b)
 		}
 	}
+	busyFrom, busyLen := -1, 0
+	var hubGot []uint64
+	drain := func() {
+		for {
+			select {
+			case e := <-hubCh:
+				hubGot = append(hubGot, e.Epoch)
+				synctest.Wait()
+			default:
+				return
+			}
+		}
+	}
+	if p.Hub {
+		busyFrom = c.Choose(len(candidates)+1, "subscriber-busy-from-block") - 1 // -1: never busy
+		if busyFrom >= 0 {
+			busyLen = 1 + c.Choose(len(candidates)-busyFrom, "subscriber-busy-for-blocks")
+		}
+	}
 	for i, b := range candidates {
+		if p.Hub {
+			feed(b)
+			fed = append(fed, b)
+			c.Transition(1)
+			if e := epochOf(p, b); qualifies(p, b) && e > lastEpochAnnounced {
+				want = append(want, ev{e, b, int(epochStart(p, e+1) - b)})
+				lastEpochAnnounced = e
+			}
+			if busyFrom < 0 || i < busyFrom || i >= busyFrom+busyLen {
+				drain()
+			} else {
+				c.Witness("blocks_delivered_while_the_subscriber_is_busy")
+			}
+			continue
+		}
 		if !p.Sweep && c.Bool("skip-block") {
 			continue
 		}
@@ -244,6 +297,32 @@ func runInBubble(c *mc.Ctx, u mc.Unit) {
 			}
 			fb.cur = b
 		}
+	}
+	if p.Hub {
+		drain()
+		cancel()
+		<-done
+		c.Obs("fed=%v busy=[%d,+%d) received=%v", fed, busyFrom, busyLen, hubGot)
+		c.NonTrivial()
+		got := map[uint64]int{}
+		for _, e := range hubGot {
+			got[e]++
+		}
+		for _, w := range want {
+			if got[w.Epoch] != 1 {
+				c.Failf("hub/epoch-not-delivered-exactly-once", "cfg %+v fed %v, subscriber busy during blocks [%d,+%d): epoch %d (announced at block %d) reached the subscriber %d times; received %v, want the epochs of %v",
+					p, fed, busyFrom, busyLen, w.Epoch, w.AtBlock, got[w.Epoch], hubGot, want)
+				break
+			}
+			delete(got, w.Epoch)
+		}
+		if len(got) > 0 && !c.Failed() {
+			c.Failf("hub/extra-notification", "cfg %+v fed %v: received %v, want the epochs of %v", p, fed, hubGot, want)
+		}
+		if len(want) >= 2 && busyLen > 0 {
+			c.Witness("hub_executions_with_several_epochs_and_a_busy_subscriber")
+		}
+		return
 	}
 	cancel()
 	<-done
@@ -296,6 +375,7 @@ func main() {
 			"(start, start+3*len] is fed in increasing order to the real notifier goroutine (one choice point per block); " +
 			"sweep units (long epochs): per epoch one of 5 arrival patterns around the first qualifying block (all blocks / exactly it / its two neighbours / only its predecessor / none); " +
 			"status units: every block of 3 epochs is a candidate, choice points per block = skip it / call GetEpochStatus() first while the block notifier already reports this block or the newest block; explored up to 2 (thorough 3) deviations from 'feed everything, no query'; " +
+			"hub units: every block of 3 epochs is fed through the real default hub; the subscriber does not read during a window of blocks (every start and length), then reads everything pending: each announced epoch must arrive exactly once; " +
 			"non-trivial = at least one block fed; distinct = distinct (unit, fed sequence, events) observations",
 		Assumptions: []string{
 			"the starting block itself counts as already seen (the notifier's initial state says so); it is fed as a no-op",
